@@ -200,7 +200,7 @@ impl<'a> Gen<'a> {
     }
     /// near-valid mutant or junk
     pub fn invalid(&mut self) -> Vec<u8> {
-        match self.r.below(16) {
+        match self.r.below(18) {
             0 => vec![],
             1 => { let n = self.r.below(64) as usize; self.r.bytes(n) }
             2 => { let n = *self.r.pick(&[1023usize, 1024, 1500, 1501, 1499, 1025]); self.r.bytes(n) }
@@ -246,6 +246,29 @@ impl<'a> Gen<'a> {
             14 => { // magic only, then junk
                 let mut d = b"ROUGHTIM".to_vec();
                 d.extend(self.r.bytes(1024));
+                d
+            }
+            15 => { // classic message whose value offsets point past the end of the datagram (into whatever a
+                    // previous, larger datagram left in the receive buffer)
+                let total = *self.r.pick(&[1024usize, 1100, 1500]);
+                let mut d = vec![0u8; total];
+                let o1 = total as u32 + 4 * self.r.range(1, 40) as u32;
+                let o2 = o1 + 64;
+                d[0..4].copy_from_slice(&3u32.to_le_bytes());
+                d[4..8].copy_from_slice(&o1.to_le_bytes());
+                d[8..12].copy_from_slice(&o2.to_le_bytes());
+                d[12..16].copy_from_slice(b"SIG\0");
+                d[16..20].copy_from_slice(b"NONC");
+                d[20..24].copy_from_slice(b"PAD\xff");
+                d
+            }
+            16 => { // two-field classic message, PAD offset beyond the datagram
+                let total = 1024usize;
+                let mut d = self.r.bytes(total);
+                d[0..4].copy_from_slice(&2u32.to_le_bytes());
+                d[4..8].copy_from_slice(&((total as u32) + 64).to_le_bytes());
+                d[8..12].copy_from_slice(b"NONC");
+                d[12..16].copy_from_slice(b"PAD\xff");
                 d
             }
             _ => { // valid-looking request with the tags in wrong order
@@ -399,6 +422,17 @@ fn c07_cases(out: &mut Out, r: &mut Rng, thorough: bool) {
     // big and tiny
     for len in [0usize, 1, 4, 8, 12, 100, 4096, 65507] {
         reqs.push(g.r.bytes(len));
+    }
+    // receive-buffer reuse: a maximal datagram full of plausible field content, then short datagrams whose
+    // offsets point beyond their own end (they must be judged on their own bytes only)
+    for _ in 0..6 {
+        let mut big = vec![0u8; 65507];
+        for (i, b) in big.iter_mut().enumerate() { *b = (i % 251) as u8; }
+        reqs.push(big);
+        for _ in 0..3 {
+            let bad = loop { let d = g.invalid(); if d.len() >= 1024 && d.len() <= 1500 && d[0] <= 3 && d[1] == 0 && &d[0..8] != b"ROUGHTIM" { break d; } };
+            reqs.push(bad);
+        }
     }
     for chunk in reqs.chunks(32) {
         let mut burst: Vec<(usize, Vec<u8>)> = chunk.iter().cloned().enumerate().collect();
